@@ -33,6 +33,16 @@ HYP_CLASSES = ["Point", "IdealPoint", "DualPoint", "PointPair", "Segment", "Geod
                "TangentVector", "Horosphere", "HorosphereArc", "Hyperplane", "Subspace"]
 SHAPES = [[], [2], [2, 3]]
 PROJ_GENS = ["E01", "E10", "Elast", "P", "S", "G01", "Gd", "Gm"]
+# ill-conditioned but exactly invertible transformations (condition number 1e9 .. 1e18, far beyond any fixed
+# "numerically singular" cut-off an inversion routine might apply, yet with an inverse that is an exact float64 matrix)
+BIG, MID = 2.0 ** 30, 2.0 ** 15
+ILL_UNIPOTENT = ["Ub", "Lb", "Ud", "Gb", "Um"]       # I + t E_ij, t an integer <= 2^30: LU inversion is exact
+ILL_DIAGONAL = ["Db"]                                 # powers of two on the diagonal: exact scaling
+ILL_MODERATE = ["Lm", "Hm"]                           # condition ~ 2^30, inverse NOT exact in LU: eps * cond tolerance
+ILL_GENS = ILL_UNIPOTENT + ILL_DIAGONAL + ILL_MODERATE
+ILL_ALPHABET = ILL_GENS + ["P", "E10"]
+ALL_GENS = PROJ_GENS + ILL_GENS
+EPS = float(np.finfo(float).eps)
 
 
 def V(key, msg):
@@ -131,6 +141,24 @@ def tmat(name, n):
         m[0, 0] = 1j
     elif name == "Gm":
         m[:2, :2] = np.array([[1, 1j], [1j, 0]])
+    elif name == "Ub":
+        m[0, 1] = BIG
+    elif name == "Lb":
+        m[n - 1, 0] = BIG
+    elif name == "Ud":
+        m[0, n - 1] = 1.0e9
+    elif name == "Gb":
+        m[0, 1] = BIG * 1j
+    elif name == "Um":
+        m[0, 1] = MID
+    elif name == "Db":
+        m = np.diag([1.0, BIG, 1.0 / BIG, MID][:n])
+    elif name == "Lm":
+        m[1, 0] = MID + 1.0                     # not a power of two: the pivoted LU divides by it
+    elif name == "Hm":
+        # the boost with eigenvalues 2^15, 2^-15 (entries exact in float64), determinant 1, condition 2^30
+        c, s_ = (MID + 1.0 / MID) / 2.0, (MID - 1.0 / MID) / 2.0
+        m[:2, :2] = np.array([[c, s_], [s_, c]])
     else:
         raise ValueError(name)
     return m
@@ -140,7 +168,7 @@ def make_T(name, n):
     """The user-facing ways of saying 'the map p -> M p': column matrix, or its transpose as row matrix."""
     from geometry_tools import projective as P
     m = tmat(name, n)
-    if PROJ_GENS.index(name) % 2 == 0:
+    if ALL_GENS.index(name) % 2 == 0:
         return P.Transformation(m.copy(), column_vectors=True), m
     return P.Transformation(m.T.copy()), m
 
@@ -182,9 +210,43 @@ def cmp_obj(v, tag, cls, got, exp_data, exp_aux, tol):
             v.append(V("%s/aux/%s" % (tag, cls), "auxiliary data\n%r\nexpected\n%r" % (ga, exp_aux)))
 
 
+def is_gauss_int(a):
+    a = np.asarray(a)
+    return bool(np.all(np.isfinite(a)) and np.all(np.real(a) == np.round(np.real(a))) and np.all(np.imag(a) == np.round(np.imag(a))))
+
+
+def exact_dot(M, Y):
+    """Every product and partial sum of `rows of Y -> M rows` is an exact float64 operation: (Gaussian) integer
+    operands, sum of the absolute values of the terms below 2^51."""
+    if Y is None:
+        return True
+    if not (is_gauss_int(M) and is_gauss_int(Y)):
+        return False
+    return bool(np.max(np.einsum("ij,...j->...i", np.abs(M), np.abs(np.asarray(Y)))) < 2.0 ** 51)
+
+
+def inv_tol(M, name=None, before=(), after=()):
+    """Tolerance (relative to 1 + max|expected|) of an inverse law for the column matrix M, or None if the law is
+    not decidable in float64.  1e-9 as long as 64*eps*cond(M) stays below it (the whole well-conditioned
+    alphabet); 1e-9 also when M is a single generator whose inverse and whose action on the data at hand are
+    exact float64 computations (power-of-two diagonal; I + t E_ij on integer data of bounded size); otherwise
+    64*eps*cond(M), and undecided above 1e-3."""
+    tol = 64.0 * EPS * float(np.linalg.cond(M))
+    if tol <= 1e-9:
+        return 1e-9
+    if name in ILL_DIAGONAL:
+        return 1e-9
+    if name in ILL_UNIPOTENT:
+        Mi = 2.0 * np.eye(M.shape[0]) - M                  # exact inverse of I + t E_ij
+        if all(exact_dot(M, d) for d in before) and all(exact_dot(Mi, d) for d in after):
+            return 1e-9
+    return tol if tol <= 1e-3 else None
+
+
 def case_proj(hist):
     from geometry_tools import projective as P
     root, ops = hist[0], hist[1:]
+    gens = ILL_ALPHABET if root.get("alpha") == "ill" else PROJ_GENS
     cls, n, shape = root["cls"], root["d"] + 1, tuple(root["shape"])
     X, X0, A0 = build_proj(root)
     v = []
@@ -244,14 +306,18 @@ def case_proj(hist):
         inv = Ts[k - 1].inv()
         if type(inv) is not type(Ts[k - 1]):
             v.append(V("proj/type/inverse", "inv() returned a %s" % type(inv).__name__))
-        cmp_obj(v, "proj/inverse", cls, inv @ Y[k], data_of(Y[k - 1]), aux_of(Y[k - 1]), 1e-9)
-        cmp_obj(v, "proj/inverse-product", cls, (inv @ Ts[k - 1]) @ Y[k - 1], data_of(Y[k - 1]), aux_of(Y[k - 1]), 1e-9)
-        cmp_obj(v, "proj/inverse-product", cls, (Ts[k - 1] @ inv) @ Y[k - 1], data_of(Y[k - 1]), aux_of(Y[k - 1]), 1e-9)
-        t += 6
+        prev = (data_of(Y[k - 1]), aux_of(Y[k - 1]))
+        tol = inv_tol(Ms[k - 1], ops[-1], before=prev, after=(data_of(Y[k]), aux_of(Y[k])))
+        if tol is not None:
+            ill = "" if ops[-1] in PROJ_GENS else "/ill-conditioned"
+            cmp_obj(v, "proj/inverse" + ill, cls, inv @ Y[k], prev[0], prev[1], tol)
+            cmp_obj(v, "proj/inverse-product" + ill, cls, (inv @ Ts[k - 1]) @ Y[k - 1], prev[0], prev[1], tol)
+            cmp_obj(v, "proj/inverse-product" + ill, cls, (Ts[k - 1] @ inv) @ Y[k - 1], prev[0], prev[1], tol)
+            t += 6
     if k >= 1:
         # transformations that have already answered a query (inv) are composed again: a product must
         # not inherit anything from its factors (e.g. a memoised inverse carried along by copy())
-        oname = PROJ_GENS[(PROJ_GENS.index(ops[-1]) + 3) % len(PROJ_GENS)]
+        oname = gens[(gens.index(ops[-1]) + 3) % len(gens)]
         other, mo = make_T(oname, n)
         other.inv()
         for (L_, R_, ML, MR, tag) in ((other, Ts[k - 1], mo, Ms[k - 1], "queried-right-factor"),
@@ -259,10 +325,13 @@ def case_proj(hist):
             Q = L_ @ R_
             Qi = Q.inv()
             t += 4
-            if not close(Qi.proj_data, np.linalg.inv(ML @ MR).T, 1e-9):
+            tol = inv_tol(ML @ MR)
+            if tol is None:
+                continue
+            if not close(Qi.proj_data, np.linalg.inv(ML @ MR).T, tol):
                 v.append(V("proj/inverse-of-product/%s" % tag, "(%s @ %s).inv() has row matrix\n%r\nexpected\n%r" % (
                     oname if L_ is other else ops[-1], ops[-1] if L_ is other else oname, Qi.proj_data, np.linalg.inv(ML @ MR).T)))
-            cmp_obj(v, "proj/inverse-of-product/%s/action" % tag, cls, Qi @ (Q @ Y[k - 1]), data_of(Y[k - 1]), aux_of(Y[k - 1]), 1e-9)
+            cmp_obj(v, "proj/inverse-of-product/%s/action" % tag, cls, Qi @ (Q @ Y[k - 1]), data_of(Y[k - 1]), aux_of(Y[k - 1]), tol)
     # derived data recomputed from the primary data of the result
     if cls == "Polygon":
         yk = Y[k]
@@ -274,7 +343,7 @@ def case_proj(hist):
     key = repr((root["d"], cls, shape, root["cx"], tuple((np.round(Wk.flatten(), 6) + 0.0).tolist())))
     return {"v": v, "t": t, "o": repr(tuple(np.round(np.asarray(expY).flatten()[:4], 6).tolist())),
             "nt": k >= 1 and not np.allclose(Wk, np.eye(n)), "key": key,
-            "ops": [] if v else list(PROJ_GENS)}
+            "ops": [] if v else list(gens)}
 
 
 # ------------------------------------------------------------------------------------------------
